@@ -255,13 +255,28 @@ def run_shard(spec, res):
                     res.count("judged:replace_dict_leafop")
             elif kind == "canonicalize":
                 g, d = gen_tree()
-                e = safe_build(d)
+                annotated = it % 3 == 0
+                if annotated:
+                    # the same variable with and without annotations on its occurrences is still one variable
+                    try:
+                        e = astwork.build_annotated(d, rng, p=0.35)
+                    except claripy.errors.ClaripyError:
+                        continue
+                    if not isinstance(e, claripy.ast.Base):
+                        continue
+                    keep.append(e)
+                    res.count("canonicalize_annotated_cases")
+                else:
+                    e = safe_build(d)
                 if e is None:
                     continue
                 vmap, cnt, canon = e.canonicalize()
                 keep.append(canon)
-                res.case(["canonicalize", d], True)
+                res.case(["canonicalize", d, annotated], True)
                 res.count("judged:canonicalize")
+                if len(canon.variables) != len(e.variables):
+                    res.violation({"kind": "utility", "util": "canonicalize", "what": "renaming-not-consistent", "case": d, "annotated": annotated, "expr": repr(e)[:200], "result": repr(canon)[:200], "variables_before": sorted(e.variables), "variables_after": sorted(canon.variables)})
+                    continue
                 # map: injective, sort preserving, covers every variable leaf
                 leaves = {x.hash(): x for x in e.leaf_asts() if x.symbolic}
                 targets = []
